@@ -39,6 +39,9 @@ pub enum ResumeAt {
 	Delayed(f64),
 	/// ticks on clock 0
 	Clock(u64),
+	/// resume now, with a fade-in tween whose own start is delayed by that many seconds: the track
+	/// runs (silently) from now on, only its fade waits
+	NowFadeDelayed(f64),
 }
 
 #[derive(Clone, Debug, Serialize, Deserialize, PartialEq)]
@@ -124,7 +127,8 @@ fn gen_case(seed: u64, tier: Tier) -> Case {
 				touched.push(t);
 				Op::Resume {
 					track: t,
-					at: match rng.below(6) {
+					at: match rng.below(7) {
+						6 => ResumeAt::NowFadeDelayed(rng.frange(0.5 * unit, 6.0 * unit)),
 						0 | 1 | 2 => ResumeAt::Now,
 						3 | 4 => ResumeAt::Delayed(rng.frange(0.0, 6.0 * unit)),
 						_ => ResumeAt::Clock(rng.below(4)),
@@ -399,6 +403,13 @@ pub fn run_case(case: &Case) -> CaseResult {
 							ResumeAt::Now => {
 								h.resume(tw);
 								t.pause = PauseM::Running { settle: t.local_hi + *tween + slack };
+							}
+							ResumeAt::NowFadeDelayed(d) => {
+								h.resume(Tween {
+									start_time: StartTime::Delayed(dur(*d)),
+									..tw
+								});
+								t.pause = PauseM::Running { settle: t.local_hi + *d + *tween + slack };
 							}
 							ResumeAt::Delayed(d) => {
 								h.resume_at(StartTime::Delayed(dur(*d)), tw);
@@ -792,7 +803,7 @@ impl Check for C12 {
 		CheckInfo {
 			id: "C12",
 			level: "exploration",
-			rule: "4% of the cases are scheduled (c12_sched.rs): a gameplay task adds child tracks / plays sounds on a parent and drops the parent's handle against an audio task running callbacks, judged at quiescence (a live child is still processed, an accepted sound on a persisting parent still played); or a reader task polls TrackHandle::state() while the audio task cancels a resume_at whose clock was removed; the others: each case = seeded history over {add (nested) track with persistence on / off, play a probe sound (optionally self-finishing), play a static sound with a start delay, stop a sound, drop one track handle (parents, children, in any order), pause with a fade, resume now / delayed / at a clock time, start / drop the clock, callback} at a seeded internal buffer size; non-trivial = at least one 'frozen' or 'removed' expectation was checked; distinct = hash of per-callback (states reported by the handles, live tracks)",
+			rule: "4% of the cases are scheduled (c12_sched.rs): a gameplay task adds child tracks / plays sounds on a parent and drops the parent's handle against an audio task running callbacks, judged at quiescence (a live child is still processed, an accepted sound on a persisting parent still played); or a reader task polls TrackHandle::state() while the audio task cancels a resume_at whose clock was removed; the others: each case = seeded history over {add (nested) track with persistence on / off, play a probe sound (optionally self-finishing), play a static sound with a start delay, stop a sound, drop one track handle (parents, children, in any order), pause with a fade, resume now / delayed / at a clock time / now with a fade-in tween that itself starts later, start / drop the clock, callback} at a seeded internal buffer size; non-trivial = at least one 'frozen' or 'removed' expectation was checked; distinct = hash of per-callback (states reported by the handles, live tracks)",
 			assumptions: vec![
 				"a track's own timers (pause fade, resume delay) run only while every track above it is advancing; the model keeps a lower and an upper bound of that local time and only demands what both bounds agree on".into(),
 				"removal is demanded two callbacks after nothing keeps the track alive (one for pick-up, one for the removal of finished sounds); until then either outcome is accepted".into(),
